@@ -1330,6 +1330,303 @@ def check_many_molecules(ctx, case):
 
 
 # ---------------------------------------------------------------------------
+# second dimension audit: result identity, all palettes per seed, awkward pairs, resize, derived inputs
+# ---------------------------------------------------------------------------
+AWK_PALETTES = [
+    # trailing blank vs none / extreme int64 residue ids (sign + maximal width) / blank vs empty
+    {"chain": ("A", "A "), "res": (0, 2**63 - 1, -(2**63)), "ins": ("", " "), "name": ("ALA", "ALA ")},
+    # maximal width + common prefix / case only / int32 limits
+    {"chain": ("ABCD", "ABCE"), "res": (-1, 0, -(2**31)), "ins": ("a", "A"), "name": ("abcde", "abcdE")},
+    # empty vs blank / just beyond int32 / empty name
+    {"chain": ("", " "), "res": (2**31 - 1, 2**31, -(2**31) - 1), "ins": ("A", "a"), "name": ("", "X")},
+]
+ALL_PALETTES = PALETTES + AWK_PALETTES
+DIM2_KINDS = ("ident", "allpal", "alltypes", "resize", "gresize", "derived")
+RESIZE_LETTERS = [0, 8, 12, 20]  # chain{a,b} x res_id{base, lower}
+
+
+def _path_bonds(n, mode):
+    from biotite.structure import BondList
+
+    edges = [(i, i + 1) for i in range(n - 1)] if mode == "path" else ([(0, 1)] if n >= 2 else [])
+    return (BondList(n, np.array(edges, dtype=np.int64)) if edges else BondList(n)), edges
+
+
+def check_result_identity(ctx, case):
+    """Pieces handed out by the iterators are new objects: re-binding edits of a piece leave the operand alone."""
+    import biotite.structure as struc
+    from biotite.structure import AtomArray, AtomArrayStack
+
+    rows = rows_of(case["digs"], FLAV_PAL)
+    n = len(rows)
+    tags = _tags(n)
+    for name, it in (("residue_iter", struc.residue_iter), ("chain_iter", struc.chain_iter),
+                     ("molecule_iter", struc.molecule_iter)):
+        arr = fill_atoms(AtomArrayStack(2, n) if case["stack"] else AtomArray(n), rows)
+        arr.coord = np.zeros(arr.coord.shape, dtype=np.float32) + 1.5
+        arr.bonds, edges = _path_bonds(n, case["bonds"])
+        cats = sorted(arr.get_annotation_categories())
+        try:
+            for piece in it(arr):
+                ctx.count("calls")
+                if piece is arr:
+                    ctx.violation("%s|result_is_operand|%s" % (name, "whole_structure"),
+                                  "the iterator handed out the structure itself", case, "a new object", "operand")
+                m = piece.array_length()
+                piece.set_annotation("c17_extra", np.zeros(m))
+                piece.res_id = np.full(m, 77)
+                piece.chain_id = np.full(m, "ZZ")
+                piece.res_name = np.full(m, "QQQ")
+                piece.del_annotation("ins_code")
+                piece.coord = np.full(piece.coord.shape, 9.0, dtype=np.float32)
+                if piece.bonds is not None:
+                    if m:
+                        piece.bonds.remove_bonds_to(0)
+                    if m >= 2:
+                        piece.bonds.add_bond(0, m - 1, 3)
+                    piece.bonds = None
+        except CaseTimeout:
+            raise
+        except Exception as e:  # noqa: BLE001
+            ctx.violation("%s|raised_%s|result_edit" % (name, type(e).__name__), str(e)[:150], case, None, None)
+            continue
+        cls = "after_%s_results_edited" % name
+        if sorted(arr.get_annotation_categories()) != cats:
+            ctx.violation("%s|operand_changed|annotation_categories" % name, "editing a piece changed the operand's "
+                          "annotation categories", case, cats, sorted(arr.get_annotation_categories()))
+            continue
+        check_views(ctx, case, arr, rows, cls, tags, views=("starts", "names", "index", "iter"))
+        if arr.bonds is None or sorted(map(tuple, arr.bonds.as_array()[:, :2].tolist())) != edges:
+            ctx.violation("%s|operand_changed|bonds" % name, "editing a piece changed the operand's bonds", case, edges,
+                          None if arr.bonds is None else arr.bonds.as_array().tolist())
+        else:
+            mol_expect(ctx, case, arr, sorted(tuple(c) for c in components(n, edges)), cls, with_iter=False)
+        if not (arr.coord == 1.5).all():
+            ctx.violation("%s|operand_changed|coord" % name, "re-binding the coordinates of a piece changed the operand",
+                          case, 1.5, arr.coord.tolist())
+    return model_starts(rows)
+
+
+def check_allpal(ctx, case):
+    from biotite.structure import AtomArray
+
+    rows = rows_of(case["digs"], ALL_PALETTES[case["pal"]])
+    arr = fill_atoms(AtomArray(len(rows)), rows)
+    cls = "palette_%d" % case["pal"] if case["pal"] < len(PALETTES) else "awkward_palette_%d" % (case["pal"] - len(PALETTES))
+    return check_views(ctx, case, arr, rows, cls, _tags(len(rows)))
+
+
+def check_alltypes(ctx, case):
+    """Every BondType member on the bonds of every graph with <= 3 atoms."""
+    from biotite.structure import BondList, BondType
+
+    v, bits = case["v"], case["bits"]
+    edges = [p for k, p in enumerate(pairs_of(v)) if bits >> k & 1]
+    exp = sorted(tuple(c) for c in components(v, edges))
+    for t in BondType:
+        bl = BondList(v, np.array([(a, b, int(t)) for a, b in edges], dtype=np.int64).reshape(len(edges), 3))
+        mol_expect(ctx, case, bl, exp, "bond_type_%s" % t.name)
+        bl2 = BondList(v)
+        for a, b in edges:
+            bl2.add_bond(b, a, t)
+        mol_expect(ctx, case, bl2, exp, "bond_type_%s" % t.name)
+    return exp
+
+
+def check_resize(ctx, case):
+    """One structure object; its annotations are replaced by patterns with other numbers of segments and back."""
+    from biotite.structure import AtomArray, AtomArrayStack
+
+    stages = [case["a"], case["b"], case["a"]]
+    n = len(case["a"])
+    arr = fill_atoms(AtomArrayStack(2, n) if case["stack"] else AtomArray(n), rows_of(case["a"], FLAV_PAL))
+    tags = _tags(n)
+    for k, digs in enumerate(stages):
+        rows = rows_of(digs, FLAV_PAL)
+        if k:
+            arr.chain_id = np.array([r[0] for r in rows], dtype="U4")
+            arr.res_id = np.array([r[1] for r in rows], dtype=np.int64)
+        rs, cs = check_views(ctx, case, arr, rows, "stage_%d_of_resized_content" % k, tags,
+                             views=("count", "starts", "names", "index", "spread", "iter"))
+    return model_starts(rows_of(case["b"], FLAV_PAL))
+
+
+def check_gresize(ctx, case):
+    """One bond list object (held by one AtomArray): edited in place from graph a to graph b and back."""
+    from biotite.structure import AtomArray
+
+    v = case["v"]
+    allp = pairs_of(v)
+
+    def edges_of(bits):
+        return [p for k, p in enumerate(allp) if bits >> k & 1]
+
+    cur = edges_of(case["a"])
+    bl = build_bonds(v, cur, 0)
+    at = AtomArray(v)
+    at.atom_name = np.array(_tags(v), dtype="U6")
+    at.bonds = bl
+    for k, bits in enumerate([case["a"], case["b"], case["a"]]):
+        tgt = edges_of(bits)
+        if k:
+            for p in cur:
+                if p not in tgt:
+                    bl.remove_bond(*p)
+            for p in tgt:
+                if p not in cur:
+                    bl.add_bond(p[1], p[0], 1 + (p[0] + p[1]) % 3)
+            cur = tgt
+        # public reads that could leave cached state behind
+        bl.get_bond_count()
+        bl.get_all_bonds()
+        exp = sorted(tuple(c) for c in components(v, cur))
+        cls = "stage_%d_of_resized_bonds" % k
+        mol_expect(ctx, case, bl, exp, cls)
+        mol_expect(ctx, case, at, exp, cls, with_iter=False)
+    return sorted(tuple(c) for c in components(v, edges_of(case["b"])))
+
+
+def check_derived(ctx, case):
+    """op2(op1(x)): every object the library hands out for x goes through every view."""
+    import biotite.structure as struc
+    from biotite.structure import AtomArray, stack
+
+    rows = rows_of(case["digs"], FLAV_PAL)
+    n = len(rows)
+
+    def fresh():
+        a = fill_atoms(AtomArray(n), rows)
+        a.bonds, e = _path_bonds(n, "path")
+        return a, e
+
+    arr, edges = fresh()
+    rs, cs = model_starts(rows)
+    derived = []  # (class, object, original index of every atom)
+    for mbits in range(1 << n):
+        sel = [i for i in range(n) if mbits >> i & 1]
+        derived.append(("bool_mask", arr[np.array([bool(mbits >> i & 1) for i in range(n)], dtype=bool)], sel))
+    full = list(range(n))
+    for nm, sl in (("slice_reversed", slice(None, None, -1)), ("slice_step2", slice(None, None, 2)),
+                   ("slice_tail", slice(1, None)), ("slice_head", slice(None, -1))):
+        derived.append((nm, arr[sl], full[sl]))
+    if n >= 2:
+        ia = [n - 1, 0]
+        derived.append(("index_array_unsorted", arr[np.array(ia)], ia))
+        perm = [1, 0] + full[2:]
+        derived.append(("index_array_permutation", arr[np.array(perm)], perm))
+    derived.append(("copy", arr.copy(), full))
+    st = stack([arr, arr.copy()])
+    derived.append(("stack_model", st[1], full))
+    derived.append(("stack_slice", st[:, ::-1], full[::-1]))
+    derived.append(("stack_copy", st.copy(), full))
+    for nm, starts in (("residue_iter_piece", rs), ("chain_iter_piece", cs)):
+        it = struc.residue_iter if nm[0] == "r" else struc.chain_iter
+        bnd = starts + [n]
+        for k, piece in enumerate(it(arr)):
+            derived.append((nm, piece, list(range(bnd[k], bnd[k + 1]))))
+    for piece in struc.molecule_iter(arr):
+        derived.append(("molecule_iter_piece", piece, full))
+    derived.append(("concatenated", arr + arr, full + [i + n for i in full]))
+    for cls, obj, sel in derived:
+        m = len(sel)
+        if obj.array_length() != m:
+            ctx.violation("derived|wrong_length|%s" % cls, "derived object has another length than its model", case, m,
+                          obj.array_length())
+            continue
+        rows_d = [rows[i % n] for i in sel] if n else []
+        pos = {}
+        for new, old in enumerate(sel):
+            pos.setdefault(old, new)
+        e_all = edges + ([(a + n, b + n) for a, b in edges] if cls == "concatenated" else [])
+        e_d = sorted({(min(pos[a], pos[b]), max(pos[a], pos[b])) for a, b in e_all if a in pos and b in pos})
+        obj.atom_name = np.array(_tags(m), dtype="U6")
+        check_views(ctx, case, obj, rows_d, "derived_" + cls, _tags(m))
+        exp = sorted(tuple(c) for c in components(m, e_d))
+        mol_expect(ctx, case, obj, exp, "derived_" + cls, with_iter=False)
+        if obj.bonds is not None:
+            mol_expect(ctx, case, obj.bonds, exp, "derived_" + cls + "_bonds")
+    return rs, cs
+
+
+def dim2_shards():
+    out = []
+    for st in (False, True):
+        out.append({"kind": "ident", "stack": st})
+    for p in range(len(ALL_PALETTES)):
+        out.append({"kind": "allpal", "pal": p})
+    out.append({"kind": "alltypes"})
+    for k in range(4):
+        out.append({"kind": "resize", "part": k, "parts": 4})
+        out.append({"kind": "gresize", "part": k, "parts": 4})
+    for k in range(2):
+        out.append({"kind": "derived", "part": k, "parts": 2})
+    return out
+
+
+def dim2_cases(shard):
+    k = shard["kind"]
+    if k == "ident":
+        for L in (0, 1, 2, 3):
+            for digs in itertools.product(SUB["chain_res"], repeat=L):
+                for bonds in ("path", "first"):
+                    yield {"kind": "ident", "digs": list(digs), "stack": shard["stack"], "bonds": bonds}
+    elif k == "allpal":
+        for L in (0, 1, 2):
+            for digs in itertools.product(range(NLET), repeat=L):
+                yield {"kind": "allpal", "pal": shard["pal"], "digs": list(digs)}
+    elif k == "alltypes":
+        for v in (0, 1, 2, 3):
+            for bits in range(1 << (v * (v - 1) // 2)):
+                yield {"kind": "alltypes", "v": v, "bits": bits}
+    elif k == "resize":
+        idx = 0
+        for a in itertools.product(RESIZE_LETTERS, repeat=3):
+            for b in itertools.product(RESIZE_LETTERS, repeat=3):
+                idx += 1
+                if idx % shard["parts"] == shard["part"]:
+                    yield {"kind": "resize", "a": list(a), "b": list(b), "stack": idx % 8 == 5}
+    elif k == "gresize":
+        idx = 0
+        for v in (2, 3, 4):
+            nb = 1 << (v * (v - 1) // 2)
+            for a in range(nb):
+                for b in range(nb):
+                    idx += 1
+                    if idx % shard["parts"] == shard["part"]:
+                        yield {"kind": "gresize", "v": v, "a": a, "b": b}
+    elif k == "derived":
+        idx = 0
+        for L in (0, 1, 2, 3):
+            for digs in itertools.product(SUB["chain_res"], repeat=L):
+                idx += 1
+                if idx % shard["parts"] == shard["part"]:
+                    yield {"kind": "derived", "digs": list(digs)}
+
+
+def run_dim2_case(ctx, case):
+    k = case["kind"]
+    if k == "ident":
+        rs, cs = check_result_identity(ctx, case)
+        return (tuple(rs), tuple(cs)), len(case["digs"]) >= 1
+    if k == "allpal":
+        rs, cs = check_allpal(ctx, case)
+        return (case["pal"], tuple(rs), tuple(cs)), len(case["digs"]) >= 2
+    if k == "alltypes":
+        exp = check_alltypes(ctx, case)
+        return tuple(exp), case["bits"] > 0
+    if k == "resize":
+        rs, cs = check_resize(ctx, case)
+        return (tuple(rs), tuple(cs)), case["a"] != case["b"]
+    if k == "gresize":
+        exp = check_gresize(ctx, case)
+        return tuple(exp), case["a"] != case["b"]
+    if k == "derived":
+        rs, cs = check_derived(ctx, case)
+        return (tuple(rs), tuple(cs)), len(case["digs"]) >= 2
+    raise ValueError(case)
+
+
+# ---------------------------------------------------------------------------
 # shards
 # ---------------------------------------------------------------------------
 def seg_palettes(tier, seed):
@@ -1390,6 +1687,9 @@ def shards(tier, seed):
 SUB["chain_res"] = [d for d in range(NLET) if d % 4 == 0]
 
 
+DIM_KINDS = ("flav", "reuse", "many", "gflav", "gedit", "gmany") + DIM2_KINDS
+
+
 def dim_shards():
     """Dimension families (same at both tiers, seed independent)."""
     out = [{"kind": "flav", "L": [0, 1], "sub": "all", "part": 0, "parts": 1},
@@ -1405,7 +1705,7 @@ def dim_shards():
     out.append({"kind": "gedit", "v": [0, 1, 2, 3, 4], "part": 0, "parts": 1, "selections": True})
     out.append({"kind": "gmany", "mode": "interleaved_paths"})
     out.append({"kind": "gmany", "mode": "star_degree"})
-    return out
+    return out + dim2_shards()
 
 
 def stack_rule(tier, L, idx):
@@ -1459,7 +1759,7 @@ def run_shard(shard, ctx):
             check_ladder(ctx, case)
             if shard["shape"] == "path" and shard["n"] == 100000 and func == "find_connected":
                 ctx.sample(case)
-    elif k in ("flav", "reuse", "many", "gflav", "gedit", "gmany"):
+    elif k in DIM_KINDS:
         _arm()
         run_dim(shard, ctx)
     else:
@@ -1469,6 +1769,9 @@ def run_shard(shard, ctx):
 def dim_cases(shard):
     """Enumerates the JSON-able cases of one dimension shard."""
     k = shard["kind"]
+    if k in DIM2_KINDS:
+        yield from dim2_cases(shard)
+        return
     if k == "flav":
         idx = 0
         for L in shard["L"]:
@@ -1503,6 +1806,8 @@ def dim_cases(shard):
 def run_dim_case(ctx, case):
     """Returns (outcome, non-trivial)."""
     k = case["kind"]
+    if k in DIM2_KINDS:
+        return run_dim2_case(ctx, case)
     if k == "flav":
         rows = rows_of(case["digs"], FLAV_PAL)
         rs, cs = check_flavours(ctx, case, rows)
@@ -1680,7 +1985,7 @@ def crash_class(case):
             return "ladder|%s" % case.get("func")
         if k == "graph_canary":
             return "graph_canary"
-        if k in ("flav", "reuse", "many", "gflav", "gedit", "gmany"):
+        if k in DIM_KINDS:
             return k
     return "unclassified"
 
@@ -1719,7 +2024,7 @@ def replay(case, ctx):
                           expected="results", observed=list(r))
     elif k == "ladder":
         check_ladder(ctx, case)
-    elif k in ("flav", "reuse", "many", "gflav", "gedit", "gmany"):
+    elif k in DIM_KINDS:
         _arm()
         try:
             _timer(CASE_TIMEOUT)
